@@ -97,8 +97,18 @@ def run(m, chk):
     ctx = r.root(NEWTON)
     fi = ctx.fi
     lim = limit_names(fi)
-    upd = [n for n in r.stmt_nodes(ctx) if isinstance(n.ast, (ast.AugAssign, ast.Assign)) and any(isinstance(t, ast.Name) and t.id == "initparam" for t in ([n.ast.target] if isinstance(n.ast, ast.AugAssign) else n.ast.targets))]
-    iter_name = "initparam"
+    # the iterate: the name that is updated inside a loop and occurs in a returned expression (whatever it is called)
+    in_loops = {id(x) for lp in ast.walk(fi.node) if isinstance(lp, (ast.For, ast.While)) for st in lp.body for x in ast.walk(st)}
+    updated = {}
+    for n in r.stmt_nodes(ctx):
+        if isinstance(n.ast, (ast.AugAssign, ast.Assign)) and id(n.ast) in in_loops:
+            for t in ([n.ast.target] if isinstance(n.ast, ast.AugAssign) else n.ast.targets):
+                if isinstance(t, ast.Name):
+                    updated.setdefault(t.id, []).append(n)
+    returned = {x.id for n in r.stmt_nodes(ctx) if isinstance(n.ast, ast.Return) and n.ast.value is not None for x in ast.walk(n.ast.value) if isinstance(x, ast.Name)}
+    cands = sorted(nm for nm in updated if nm in returned)
+    iter_name = cands[0] if len(cands) == 1 else ("initparam" if "initparam" in cands else (cands[0] if cands else "initparam"))
+    upd = updated.get(iter_name, [])
     if lim is None or not upd:
         chk.floor("CLAMP", "limits unpacking and iterate update in the Newton helper", 0, 1)
     lo, hi = lim
